@@ -198,6 +198,9 @@ def short(p):
     return "".join(ch if ch.isalnum() or ch in "_->." else "_" for ch in str(p))[:40]
 
 
+# generic robustness battery: renaming every local/parameter in these files must not change any verdict
+RENAME_LOCALS = ['src/pinifile.c', 'src/pdir-posix.c', 'src/pshm-posix.c', 'src/pipc.c', 'src/psocket.c']
+
 SELFTEST = [
     dict(id="list-append-null-test-dropped", file="src/plist.c", expect="C18.1",
          old="\tif (P_UNLIKELY ((item = p_malloc0 (sizeof (PList))) == NULL)) {\n\t\tP_ERROR (\"PList::p_list_append: failed to allocate memory\");\n\t\treturn list;\n\t}\n",
